@@ -278,6 +278,35 @@ def run(ctx):
                                      "kf": None, "input": {"fl": fname, "history": log, "reused": a, "fresh": b2}})
                 break
         res.nontrivial.add(("dechist", fname, len(log), sum(x["corrupt"] for x in log)))
+    # -- stream A': round trips under every process-wide configuration (hardware flag, simulator selection,
+    # log level): losslessness must not depend on any of it
+    for (cname, enter, leave) in H.global_configs():
+        try:
+            tok = enter()
+        except Exception:
+            continue
+        try:
+            for fname in H.FLAVOURS:
+                insts = [H.instances_of(c, rng, 1, 3)[-1] for c in H.flavour_classes(fname)]
+                insts = [i for i in insts if not (fname == "vanilla" and type(i).id == 41)]  # F1 is judged above
+                app = rng.randrange(65536)
+                res.evaluations += 1
+                res.count("config:" + cname.split("(")[0].split("=")[0])
+                want = {"app": app, "is": [H.instr_to_json(i) for i in insts]}
+                rb = H.real_encode_sub(insts, app, (0, 10))
+                rs = H.real_decode_sub(fname, rb) if rb is not None else None
+                got = None if rs is None else {"app": rs.app_id, "is": [H.instr_to_json(i) for i in rs.instructions]}
+                if got != want:
+                    bad = None
+                    if got is not None:
+                        bad = [(a, b) for a, b in zip(want["is"], got["is"]) if a != b][:2]
+                    res.failures.append({"what": "decode(encode(subroutine)) != subroutine under a process-wide "
+                                                 "configuration", "kf": None,
+                                         "input": {"config": cname, "fl": fname, "app": app,
+                                                   "n_sent": len(insts), "n_back": None if got is None else len(got["is"]),
+                                                   "first_differences": bad}})
+        finally:
+            leave(tok)
     # -- stream C: malformed / arbitrary byte strings
     n_mal = 3000 if ctx.thorough else 300
     raws = []
